@@ -316,6 +316,46 @@ CLAIMED['C16'] = dict(
         design_ref="DESIGN.md 5 C16",
     )
 
+CLAIMED['C02'] = dict(
+        technique="Coq proof over hand-written executable models of pycel.excelformula's parser (token pre-pass, "
+                  "shunting-yard main loop with argument counting, _build_ast: coq/Model/Syntax.v) and code emitter "
+                  "(coq/Model/Emit.v) on top of the operator/function tables regenerated from the source "
+                  "(Token.precedences, OperatorNode.op_map, FunctionNode.func_map via the translator's constant "
+                  "mechanism); Python's expression grammar for the emitted sub-language modelled as precedence-"
+                  "correct trees and cross-checked against CPython's ast.parse in both directions; "
+                  "extracted-model/implementation differential run on exact RPN / python_code strings; a reference "
+                  "evaluator (implementation's own operators per node of the intended tree) as oracle",
+        text="Machine-checked (Coq 8.16, 7 theorems in coq/Props/C02.v, all closed under the global context). "
+             "FULL, unbounded depth: C02_parse (for every well-formed concrete tree of Excel's grammar - literals, "
+             "references, any redundant parentheses, prefix -, postfix %, the 12 binary operators and the 3 "
+             "reference operators at their levels, left-associative, function calls with any number of possibly "
+             "omitted arguments, nested arbitrarily - pre-pass + shunting-yard + _build_ast applied to its token "
+             "string return exactly its meaning), C02_rpn (the RPN is its postfix form with the right argument "
+             "counts), C02_precedence_table (the levels the proofs use are the generated Token.precedences), "
+             "C02_op_map (generated op_map: ^ -> **, = -> ==, <> -> !=). PARTIAL: C02_emit_partial (the emitted "
+             "code is precedence-correct in Python's grammar and denotes the Python tree that means e, for the "
+             "arithmetic fragment and PROVIDED no prefix minus is the left operand of ^; missing: that proviso "
+             "and the uniqueness of Python's parse, which is checked against CPython), C02_text_partial (a text "
+             "literal of any length without backslash / LF / CR compiles to a Python literal that decodes to "
+             "exactly its characters; missing: those three characters), C02_number_partial (integer literals "
+             "without superfluous leading zeros; missing: leading zeros; decimals/exponents correspondence only). "
+             "REFUTED in the faithful model (advisory, extra targets): Refuted/C02_emit_neg_pow.v (e = (-2)^2 is "
+             "emitted as '-2 ** 2', the flattening of the Python tree -(2**2)), Refuted/C02_literals.v ('a\\nb' "
+             "decodes to a line feed, 'a\\' is not a complete literal, 007 is not a Python literal). "
+             "CORRESPONDENCE-ONLY: the openpyxl tokenizer and Tokenizer._items (white space, unary +, name "
+             "case), array constants, the emitter outside the arithmetic fragment (reference operators, "
+             "ROW/COLUMN, arrays), Python's parse of the emitted text (PyWF <-> ast.parse, both directions), "
+             "evaluation (no C02_eval theorem: the oracle evaluates the intended tree with the implementation's "
+             "own excel_operator_operand_fixup per node). Outside the model: OFFSET/INDIRECT/SUBTOTAL emission, "
+             "references other than [sheet!]A1[:B2]. A quick run parses ~17k distinct formula texts on both "
+             "sides (every tree of depth <= 2 over 10 operators/prefix/postfix/3 leaves, sampled depth 3 and "
+             "depth <= 8, calls, omitted arguments, arrays; minimal and randomly over-parenthesised / spaced "
+             "renderings) with 0 divergences, cross-checks 6000 random Python trees and ~15k emitted code "
+             "strings against CPython, and evaluates ~21k (formula, environment) pairs against the reference "
+             "evaluator; the thorough tier is exhaustive to depth 3 (~10^5 trees).",
+        design_ref="DESIGN.md 5 C02",
+    )
+
 NOT_YET = "check not built yet in this round (planned: DESIGN.md section 7 lists the build order)"
 
 
